@@ -88,6 +88,7 @@ fn build(case: &Case) -> SpCase {
         steps,
         linger_ms: 2500,
         discipline: false,
+        bystander: None,
     }
 }
 
